@@ -197,4 +197,33 @@ theorem code_promise_kept (isDNS : GoRT.Opaque "net.Addr" → Bool) (now timeout
 example : Tie.NatConn.R 300 { Gen.Code.natconn.zero with defaultTimeout := 300 } init := by
   simp [Tie.NatConn.R, Gen.Code.natconn.zero, init, Tie.NatConn.lastSet]
 
+
+/-- **code_history_refines_model**: every history of translated `onWrite` / `onRead` calls on a fresh association never
+    panics and stays in the simulation relation with the model's run of the same history: after it, the deadline field,
+    the latch and the LAST deadline set on the socket are the model's — so every theorem above about reachable model states
+    (`fastclose_exactly`, the invariants J and A) is a statement about what the code has done to its socket. -/
+theorem code_history_refines_model (isDNS : GoRT.Opaque "net.Addr" → Bool) (timeout : Nat) (os : List Tie.NatConn.COp) :
+    ∃ c', Tie.NatConn.codeRun isDNS { Gen.Code.natconn.zero with defaultTimeout := (timeout : Int) } os = some c' ∧
+      Tie.NatConn.R timeout c' (run timeout Gen.dnsTimeoutNs init (os.map (Tie.NatConn.absOp isDNS))) :=
+  Tie.NatConn.codeRun_sim isDNS timeout os _ _ (Tie.NatConn.R_init timeout)
+
+/-- **code_fastclose_latch**: after any history of translated calls (times > 0), the latch of the translated association is
+    still armed (`fastClose = false`) only if its whole client traffic was at most one datagram, to the DNS port -/
+theorem code_fastclose_latch (isDNS : GoRT.Opaque "net.Addr" → Bool) (timeout : Nat) (os : List Tie.NatConn.COp)
+    (hpos : ∀ o ∈ os.map (Tie.NatConn.absOp isDNS), 0 < o.now) :
+    ∃ c', Tie.NatConn.codeRun isDNS { Gen.Code.natconn.zero with defaultTimeout := (timeout : Int) } os = some c' ∧
+      (c'.fastClose = false →
+        (run timeout Gen.dnsTimeoutNs init (os.map (Tie.NatConn.absOp isDNS))).writes =
+          (run timeout Gen.dnsTimeoutNs init (os.map (Tie.NatConn.absOp isDNS))).dnsWrites ∧
+        (run timeout Gen.dnsTimeoutNs init (os.map (Tie.NatConn.absOp isDNS))).writes ≤ 1) := by
+  obtain ⟨c', h1, h2⟩ := code_history_refines_model isDNS timeout os
+  refine ⟨c', h1, fun hf => ?_⟩
+  have harmed : (run timeout Gen.dnsTimeoutNs init (os.map (Tie.NatConn.absOp isDNS))).armed = true := by
+    have := h2.2.2.1
+    rw [hf] at this
+    cases ha : (run timeout Gen.dnsTimeoutNs init (os.map (Tie.NatConn.absOp isDNS))).armed with
+    | true => rfl
+    | false => simp [ha] at this
+  exact (fastclose_exactly timeout Gen.dnsTimeoutNs _ hpos true 0).2 harmed
+
 end OutlineModel.Props.C14
